@@ -105,7 +105,7 @@ Section Styledown.
       if w r =? 0 then Err                                  (* zero-width character *)
       else
         let k := Z.to_nat (w r) in
-        if Nat.ltb (length sty) k then Err                  (* style[:w] past the end: see checks/C33.md *)
+        if Nat.ltb (length sty) k then Err                  (* len(style) < w: style line too short *)
         else if negb (all_same (firstn k sty)) then Err     (* inconsistent style *)
         else match sty with
              | [] => Err
